@@ -13,7 +13,7 @@ import fam_cwrap
 class Unit:
     def __init__(self, name, fam, target, props, inline=(), stubs=(), assumed=(), decls=(), lemmas=(), macros=(), insts=(), mode='P',
                  unwind=None, solver='minisat', timeout=600, mem_gb=8, thorough_insts=(), notes='', object_bits=12, harness=None,
-                 frame_ghost_only=False, extra_flags=(), canary=True, spec=('pgm.spec',), cases=None, assumptions=(), partition=0, defines=(), drop_checks=(), extract_from=None, target_sig=None, attach=(), lemma_only=False):
+                 frame_ghost_only=False, extra_flags=(), canary=True, spec=('pgm.spec',), cases=None, assumptions=(), partition=0, defines=(), drop_checks=(), extract_from=None, target_sig=None, attach=(), lemma_only=False, thorough_only_props=()):
         self.name, self.fam, self.target, self.props = name, fam, target, list(props)
         self.inline, self.stubs, self.assumed = list(inline), list(stubs), list(assumed)
         self.decls, self.lemmas, self.macros = list(decls), list(lemmas), list(macros)
@@ -31,6 +31,7 @@ class Unit:
         self.drop_checks = list(drop_checks)
         self.extract_from, self.target_sig, self.attach = extract_from, target_sig, list(attach)
         self.lemma_only = lemma_only
+        self.thorough_only_props = list(thorough_only_props)   # properties this unit serves in the thorough tier only (too slow to repeat per property on every change)
 
 
 def kinst(k, floating='float'):
@@ -73,7 +74,7 @@ U('pgmindex_search', fam_pgm, 'PGMIndex_search', ['C01', 'C02', 'C16', 'C17'],
 U('pgmindex_segment_for_key', fam_pgm, 'PGMIndex_segment_for_key', ['C01', 'C02', 'C07', 'C16', 'C17'],
   inline=['PGMIndex_height', 'PGMIndex_segments_count'], assumed=['Segment_call'], decls=['pgm_ghost', 'std_upper_bound_Segment'],
   lemmas=['lemma_level', 'lemma_level_first', 'lemma_level_sorted', 'lemma_resp', 'pgmv_upper_bound_Segment'],
-  macros=fam_pgm.MACROS, insts=QUICK_K[:1], thorough_insts=QUICK_K, frame_ghost_only=True, assumptions=[ACC_NOTE], partition=32, timeout=1500,
+  macros=fam_pgm.MACROS, insts=QUICK_K[:1], thorough_insts=QUICK_K, frame_ghost_only=True, assumptions=[ACC_NOTE], partition=32, timeout=1500, thorough_only_props=['C16', 'C17'],
   cases=[('PGMV_CASE', '0'), ('PGMV_CASE', '1'), ('PGMV_CASE', '2')])
 
 U('segment_call', fam_pgm, 'Segment_call', ['C01', 'C02', 'C17'], decls=['pgm_ghost'], defines=['PGMV_F2I_STRICT'], timeout=900,
@@ -112,7 +113,8 @@ for fn, extra in (('lower_bound', []), ('contains', []), ('upper_bound', []), ('
     U('mapped_' + fn, fam_mapped, 'Mapped_' + fn, ['C11', 'C16', 'C17'], inline=['Mapped_begin', 'Mapped_size', 'Mapped_end'],
       stubs=(['Mapped_lower_bound', 'Mapped_upper_bound'] if fn == 'count' else []), assumed=['Mapped_search'],
       decls=['mapped_ghost', 'std_bounds_K'], lemmas=MAPPED_LEM, insts=MAPPED_Q, thorough_insts=MAPPED_ALL, spec=('mapped.spec',),
-      frame_ghost_only=True, assumptions=[SEARCH_NOTE], timeout=1200, partition=(16 if fn == 'upper_bound' else 0), mem_gb=12)
+      frame_ghost_only=True, assumptions=[SEARCH_NOTE], timeout=1200, partition=(16 if fn == 'upper_bound' else 0), mem_gb=12,
+      thorough_only_props=(['C16', 'C17'] if fn in ('upper_bound', 'count') else []))
 
 
 # ---------------------------------------------------------------------------------------------------
